@@ -26,6 +26,10 @@ pub struct DeepSc {
     /// value goes (an element / member value somewhere inside it); with tail "generic-from-end" the
     /// fault position counts back from the end of the text (0 = after the last character)
     pub outer: Option<String>,
+    /// shape "run": `outer` is a template and the placeholder is replaced by `depth` copies of this
+    /// token (a long run of whitespace, digits, string characters, escapes, array elements, object
+    /// members): stack use must not grow with the length of any run either
+    pub unit: Option<String>,
 }
 
 pub const SHAPES: [&str; 6] = ["array-open", "array-closed", "object-open", "object-closed", "mixed-closed", "wide-closed"];
@@ -39,6 +43,7 @@ impl DeepSc {
             ("options".into(), J::Arr(vec![J::Bool(self.opts.0), J::Bool(self.opts.1)])),
             ("fault".into(), match &self.fault { Some((k, p, c)) => J::Arr(vec![J::from(k.as_str()), J::UInt(*p), J::UInt(*c as u64)]), None => J::Null }),
             ("outer".into(), match &self.outer { Some(o) => J::Str(o.clone()), None => J::Null }),
+            ("unit".into(), match &self.unit { Some(o) => J::Str(o.clone()), None => J::Null }),
         ])
     }
     pub fn from_json(j: &J) -> Result<DeepSc, String> {
@@ -51,13 +56,14 @@ impl DeepSc {
         };
         Ok(DeepSc { shape: s("shape")?, depth: u("depth")?, stack_kib: u("stack_kib")?, tail: s("tail")?, tail_at: u("tail_at")?, via: s("via")?,
             opts: (o.first().and_then(J::as_bool).unwrap_or(false), o.get(1).and_then(J::as_bool).unwrap_or(false)), fault,
-            outer: j.get("outer").and_then(J::as_str).map(String::from) })
+            outer: j.get("outer").and_then(J::as_str).map(String::from), unit: j.get("unit").and_then(J::as_str).map(String::from) })
     }
     pub fn digest(&self) -> u64 {
         let mut d = crate::kernel::rng::Digest::default();
         d.str(&self.shape); d.u64(self.depth); d.u64(self.stack_kib); d.str(&self.tail); d.u64(self.tail_at); d.str(&self.via);
         if let Some((k, p, c)) = &self.fault { d.str(k); d.u64(*p); d.u64(*c as u64); }
         if let Some(o) = &self.outer { d.str(o); }
+        if let Some(o) = &self.unit { d.str(o); }
         d.finish()
     }
 
@@ -68,9 +74,14 @@ impl DeepSc {
 
     /// The document text and whether the stream fails after it.
     pub fn text(&self) -> (String, bool) {
+        if let (Some(template), Some(unit)) = (&self.outer, &self.unit) {
+            let mut run = String::with_capacity(unit.len() * self.depth as usize);
+            for _ in 0..self.depth { run.push_str(unit); }
+            return (template.replacen('\u{1}', &run, 1), false);
+        }
         if let Some(outer) = &self.outer {
             // the deep closed value (shape `self.shape`, no tail of its own) embedded in the outer document
-            let inner = DeepSc { outer: None, tail: "none".into(), fault: None, ..self.clone() }.text().0;
+            let inner = DeepSc { outer: None, unit: None, tail: "none".into(), fault: None, ..self.clone() }.text().0;
             return (outer.replacen('\u{1}', &inner, 1), false);
         }
         let n = self.depth;
@@ -176,10 +187,24 @@ pub fn child_main(json: &str) -> i32 {
     }
 }
 
+/// The binary deep children run from: the *unoptimised* build when it exists (a recursion that the
+/// optimiser turns into a loop is still a recursion in every debug build of a user), otherwise this
+/// binary. `VERIF_DEEP_PROFILE=release` forces the optimised one.
+pub fn deep_child_exe() -> std::path::PathBuf {
+    let me = std::env::current_exe().expect("current_exe");
+    if std::env::var("VERIF_DEEP_PROFILE").map(|v| v == "release").unwrap_or(false) { return me; }
+    let s = me.to_string_lossy().to_string();
+    if let Some(i) = s.rfind("/release/") {
+        let dbg = format!("{}/debug/{}", &s[..i], &s[i + "/release/".len()..]);
+        if std::path::Path::new(&dbg).exists() { return dbg.into(); }
+    }
+    me
+}
+
 /// Parent side: run the scenario in a fresh child process and classify its exit status.
 pub fn run_in_child(sc: &DeepSc, timeout: Duration) -> DeepOutcome {
     let t0 = Instant::now();
-    let exe = std::env::current_exe().expect("current_exe");
+    let exe = deep_child_exe();
     let mut child = match Command::new(exe).arg("--deep-child").arg(sc.to_json().to_string_compact()).stdin(Stdio::null()).stdout(Stdio::piped()).stderr(Stdio::piped()).spawn() {
         Ok(c) => c,
         Err(e) => return DeepOutcome { violation: None, kind: format!("harness-error: spawn failed: {}", e), wall_s: 0.0 },
